@@ -7,8 +7,8 @@ KeySeq(S) == LET RECURSIVE F(_)
                  F(T) == IF T = {} THEN <<>> ELSE LET k == CHOOSE x \in T : TRUE IN <<k>> \o F(T \ {k})
              IN F(S)
 Op(o) == Len(h) <= MaxOps /\ h' = Append(h, o) /\ fin' = FALSE
-GInit == Init /\ h = <<[op |-> "init", conf |-> KeySeq(conf)]>> /\ fin = FALSE
-GNext == \/ \E c1 \in Confs : Reload(c1) /\ Op([op |-> "reload", conf |-> KeySeq(c1)])
+GInit == Init /\ h = <<[op |-> "init", conf |-> KeySeq(conf), zero |-> KeySeq(zero)]>> /\ fin = FALSE
+GNext == \/ \E c1 \in Confs : \E z1 \in ZeroSets(c1) : Reload(c1, z1) /\ Op([op |-> "reload", conf |-> KeySeq(c1), zero |-> KeySeq(z1)])
          \/ \E k \in Keys : Touch(k) /\ Op([op |-> "touch", k |-> k, avail |-> ost'[live[k]].avail,
                                              d |-> ost'[live[k]].conn - ost[live[k]].conn])
          \/ \E c \in Clusters : Select(c) /\ Op([op |-> "select", c |-> c])
